@@ -220,6 +220,9 @@ func framingCase(c map[string]interface{}) (out map[string]interface{}) {
 	out["panicked"] = false
 	out["n"], out["intact"], out["result"], out["allocok"] = 0, true, "error", true
 	if c["fam"] == "cutgen" {
+		if c["unary"] == true {
+			return cutUnaryCases(c)
+		}
 		return cutCases(c)
 	}
 	defer func() {
@@ -243,6 +246,77 @@ func framingCase(c map[string]interface{}) (out map[string]interface{}) {
 	}
 	out["n"], out["intact"], out["result"], out["allocok"] = n, intact, result, allocok
 	return out
+}
+
+// lenRT replays a reply with a Content-Length: a body that ends before the
+// declared length is reported by net/http as io.ErrUnexpectedEOF.
+type lenRT struct {
+	status int
+	header http.Header
+	body   []byte
+	full   int
+}
+
+func (t *lenRT) RoundTrip(req *http.Request) (*http.Response, error) {
+	if req.Body != nil {
+		io.Copy(io.Discard, req.Body)
+		req.Body.Close()
+	}
+	return &http.Response{StatusCode: t.status, Status: "200 OK", Proto: "HTTP/1.1", ProtoMajor: 1, ProtoMinor: 1,
+		Header: t.header.Clone(), Body: &tapeReader{r: bytes.NewReader(t.body), abrupt: len(t.body) < t.full},
+		ContentLength: int64(t.full), Request: req}, nil
+}
+
+// cutUnaryCases records the real reply of a successful unary call whose
+// response populates several fields (so that many prefixes of the body are
+// themselves valid encodings) and gives the real unary client the body cut at
+// every byte offset, the way net/http presents a body shorter than its
+// Content-Length.
+func cutUnaryCases(c map[string]interface{}) map[string]interface{} {
+	resp := &gt.Message{Payload: []byte("hello-world"), Count: 42, Code: 7, DelayMillis: 3,
+		Headers: map[string][]byte{"k": []byte("v")}}
+	if c["big"] == true {
+		resp.Payload = bytes.Repeat([]byte{9}, 300)
+	}
+	md := grpc.MethodDesc{MethodName: "U", Handler: func(srv interface{}, ctx context.Context, dec func(interface{}) error, _ grpc.UnaryServerInterceptor) (interface{}, error) {
+		if e := dec(new(gt.Message)); e != nil {
+			return nil, e
+		}
+		return resp, nil
+	}}
+	h := httpgrpc.HandleMethod(theImpl, "verif.Svc", &md, nil)
+	req := httptest.NewRequest("POST", "/verif.Svc/U", bytes.NewReader(nil))
+	req.Header.Set("Content-Type", httpgrpc.UnaryRpcContentType_V1)
+	rec := httptest.NewRecorder()
+	h(rec, req)
+	res := rec.Result()
+	body := rec.Body.Bytes()
+	u, _ := url.Parse("http://x.invalid/")
+	var multi []map[string]interface{}
+	for cut := 0; cut <= len(body); cut++ {
+		o := map[string]interface{}{"fam": "cut", "total": 1, "cut": cut, "len": len(body), "abrupt": cut < len(body),
+			"kind": "unary", "panicked": false, "allocok": true}
+		func() {
+			defer func() {
+				if r := recover(); r != nil {
+					o["panicked"] = true
+				}
+			}()
+			ch := &httpgrpc.Channel{Transport: &lenRT{status: res.StatusCode, header: res.Header, body: body[:cut], full: len(body)}, BaseURL: u}
+			got := new(gt.Message)
+			err := ch.Invoke(context.Background(), "/verif.Svc/U", &gt.Message{}, got)
+			if err == nil {
+				o["n"], o["result"], o["intact"] = 1, "ok", proto.Equal(got, resp)
+			} else {
+				o["n"], o["result"], o["intact"] = 0, "error", true
+			}
+		}()
+		if _, ok := o["n"]; !ok {
+			o["n"], o["intact"], o["result"] = 0, true, "error"
+		}
+		multi = append(multi, o)
+	}
+	return map[string]interface{}{"_multi": multi}
 }
 
 // cutCases records a real reply of k messages (plus headers, trailers and a
